@@ -387,6 +387,7 @@ func (fr *Frame) assign(st *State, l ast.Expr, v Val) {
 			return
 		}
 		f := base.Underlying().(*types.Struct).Field(idx[0])
+		fr.aliasCheck(st, n, f, v)
 		if isPtr {
 			p := fr.expr(st, n.X)
 			fr.safety(st, "nil-deref", fr.src(n.X), n, "(not (= "+p.T+" 0))")
